@@ -10,7 +10,8 @@ from .values import OutsideSubset
 
 VERIF = api.VERIF
 PROP_MODULES = {
-    "C04": ["contracts.c04"],
+    "C04": ["contracts.c04", "contracts.c05"],
+    "C05": ["contracts.c05"],
 }
 
 
@@ -87,6 +88,20 @@ def run_property(prop, tier="quick", seed=0, only=None, verbose=False):
         except Exception as e:
             rp = f"replay crashed: {e!r}\n{traceback.format_exc()}"
             rec.replay_crashed = True
+        if rp is None and isinstance(rec.contract, api.Contract):
+            # the model lives in an abstraction (uninterpreted spec functions): search the contract's small native domain
+            t1 = time.time()
+            try:
+                for cand in rec.contract.candidates():
+                    rp2 = rec.contract.replay(cand)
+                    if rp2 not in (None, "no-replay"):
+                        rp = rp2
+                        rec.result["model"] = cand
+                        break
+                    if time.time() - t1 > 30:
+                        break
+            except Exception as e:
+                rp = None
         rec.replay = rp
         match = [f for f in kf.get("findings", []) if f["property"] == prop and finding_matches(f, rec)]
         if match and rp not in (None, "no-replay") and re.search(match[0].get("signature", ""), rp or ""):
@@ -122,11 +137,11 @@ def run_property(prop, tier="quick", seed=0, only=None, verbose=False):
             print(f"KNOWN-FINDING: property={prop} {f['what']}")
             printed.add(key)
     rc = 0
-    for v in violations:
+    for vi, v in enumerate(violations):
         rc = 1
         if isinstance(v, tuple):
             _, b, fl = v
-            path = os.path.join(VERIF, "replays", prop, re.sub(r"[^A-Za-z0-9_.-]+", "_", b.id)[:80] + ".json")
+            path = os.path.join(VERIF, "replays", prop, re.sub(r"[^A-Za-z0-9_.-]+", "_", b.id)[:80] + f".{vi}.json")
             json.dump({"property": prop, "obligation": b.id, "kind": "bounded", "failure": fl}, open(path, "w"), indent=1, default=str)
             print(f"VIOLATION property={prop} replay={path}")
             continue
